@@ -7,6 +7,8 @@
 #include <fcppt/container/join.hpp>
 #include <fcppt/container/pop_back.hpp>
 #include <fcppt/move_clear.hpp>
+#include <fcppt/container/get_or_insert.hpp>
+#include <fcppt/container/get_or_insert_with_result.hpp>
 #include <fcppt/optional/object.hpp>
 #include <fcppt/optional/cat.hpp>
 #include <fcppt/optional/sequence.hpp>
@@ -74,4 +76,17 @@ void vf_ccat_l(OSRC, std::size_t *on, int *ids, int *st){ MKO; vf_mark(); fixtrk
 bool vf_cseq_r(OSRC, std::size_t *on, int *ids){ MKO; vf_mark(); fcppt::optional::object<fixtrk> r{fcppt::optional::sequence<fixtrk>(std::move(c))}; if (r.has_value()) put(r.get_unsafe(), on, ids); return r.has_value(); }
 bool vf_cseq_l(OSRC, std::size_t *on, int *ids, int *st){ MKO; vf_mark(); fcppt::optional::object<fixtrk> r{fcppt::optional::sequence<fixtrk>(c)}; if (r.has_value()) put(r.get_unsafe(), on, ids); puto(c, st); return r.has_value(); }
 bool vf_ceseq_r(OSRC, std::size_t *on, int *ids, int *fail){ MKE; vf_mark(); fcppt::either::object<ftrk, fixtrk> r{fcppt::either::sequence<fixtrk>(std::move(c))}; if (r.has_success()) put(r.get_success_unsafe(), on, ids); else *fail = r.get_failure_unsafe().id; return r.has_success(); }
+}
+// ---- get_or_insert on a fixed-capacity map int -> instrumented value (unsorted slots, capacity 3)
+struct fixtmap { using key_type = int; using mapped_type = trk; using value_type = std::pair<int, trk>; using size_type = std::size_t; using iterator = value_type *; using const_iterator = value_type const *;
+  value_type d[3]; std::size_t n;
+  iterator begin() { return d; } iterator end() { return d + n; } const_iterator begin() const { return d; } const_iterator end() const { return d + n; }
+  iterator find(int k) { for (std::size_t i = 0; i < 3 && i < n; ++i) if (d[i].first == k) return d + i; return d + n; }
+  const_iterator find(int k) const { for (std::size_t i = 0; i < 3 && i < n; ++i) if (d[i].first == k) return d + i; return d + n; }
+  template <typename M> std::pair<iterator, bool> emplace(int k, M &&m) { iterator const it = find(k); if (it != end()) return {it, false}; d[n].first = k; d[n].second = std::forward<M>(m); return {d + n++, true}; } };
+extern "C" {
+int vf_cget_or_insert(std::size_t n, int k0, int a0, int k1, int a1, int key, int fresh, bool *inserted, std::size_t *on, int *ids){
+  fixtmap c{{{k0, trk{a0}}, {k1, trk{a1}}, {0, trk{-1}}}, n}; vf_mark();
+  auto const r = fcppt::container::get_or_insert_with_result(c, key, [fresh](int){ return trk{fresh}; });
+  *inserted = r.inserted(); int const got = r.element().moved_from ? -2 : r.element().id; *on = c.n; for (std::size_t i = 0; i < 3 && i < c.n; ++i) ids[i] = c.d[i].second.moved_from ? -2 : c.d[i].second.id; return got; }
 }
